@@ -1369,6 +1369,8 @@ pub fn c07_random_eval(bytes: &[u8], want: bool) -> CaseReport {
 	wcfg.p_byval = 50;
 	wcfg.p_nested = 110;
 	wcfg.p_copy_permuted = 50;
+	// zero-sized members: an empty owned collection found at the address of a lock
+	wcfg.p_zst_member = 25;
 	let opts = Opts::default();
 	let world = gen_world(&mut Src::new(bytes), &wcfg);
 	let steps = use_every_collection(&world);
@@ -1993,6 +1995,7 @@ pub fn seq_profile(prop: &str) -> Option<(SeqCfg, Opts)> {
 				guard_ops: 12,
 				p_panic: 90,
 				p_unwinding_drop: 40,
+				debug: 2,
 				is_poisoned: 6,
 				clear_poison: 3,
 				phantom_hold: 1,
